@@ -13,7 +13,9 @@ C={
  "C06":("4.6","E1-enum + E2-seq","Deviation-bounded (number of bad entries <=2, thorough <=3) enumeration of batches over 27 lengths x positions x 15 bad-entry kinds x 6 option sets, and all sequences of <=3 full chunks over 7 chunk kinds x remainders inside one call; every entry compared with the model and with single verification.",T),
  "C07":("4.7","E1-enum","All 144 ordered variant/context pairs x keys x messages x {single, batch 4, batch 65}; every context length 0..300, digest length 0..130, hash selector 0..20 on all three entry points.",T),
  "C09":("4.9","E1-enum","Complete finite set of torsion encodings (positive), [k]B+T_i for all 8 T_i (negative), exhaustive 13-bit (thorough 16-bit) y scan, at the predicate and end to end (single and batch call sites), two limb layouts.",T),
+ "C16":("4.16","E1-enum","The table selector on its complete finite domain (32 rows x 17 digits) on every backend, all table constants, fixed-base multiplication on the nibble-pattern alphabet through both expansion paths, double-base multiplication on W5/W7 digit alphabets x 14 points incl. small-order / mixed-order / +-B / identity, vs the model; 4 (thorough 7) build configurations.",T),
  "C17":("4.17","E1-enum + E2-seq","The multi-scalar routine on every heap size 2n+1 (thorough: every n in 4..64) x 20 scalar-magnitude profiles (incl. common factors that make the final Bos-Coster scalar > 1) x point profiles, compared with the exact sum from the model; all sequences of <=3 chunk sizes on a reused heap; vartime helpers on limb-boundary pairs; all-valid batches of every size 4..200 end to end with the fallback hook (no fallback allowed).",T),
+ "C10":("4.10","E1-enum","Exhaustive 13-bit (thorough 16-bit) y scan x sign, the largest 2^9 (2^12) 255-bit y (all y >= p), 2^k+-1 boundaries: decodability, decoded point, negation, re-encoding and stability vs the model's lenient rule; both square-root branches; Pack of scaled and unreduced representations; two (thorough four) configurations.",T),
  "C11":("4.11","E1-enum","Nibble-pattern scalar alphabet (every radix-16 digit value at every position, carry runs) and boundary scalars on the base-point fast path vs the RFC 7748 ladder; low-order, non-canonical and structured u values on the generic path; on 3 (thorough 7) configurations.",T),
  "C12":("4.12","E1-enum","Seeds of a 6-bit (thorough 12-bit) subspace through both conversion routes, and an exhaustive 13-bit (16-bit) y scan plus boundary strings for the public-key conversion, vs (1+y)/(1-y) from the model.",T),
  "C18":("4.18","E1-enum","Dense per-limb alphabets (full product over all limbs) for reduced elements and caller-reachable unreduced classes derived by running the real add/sub/after-basic/neg operations; every binary op on every ordered pair, Mul on all class pairs, unary ops, chains, serialisation of every representation; both limb layouts and a native 32-bit target; exact residues and limb-bound postconditions vs math/big.",T),
